@@ -161,12 +161,29 @@ func (s *DiscoveryStrategy) GetRoutableEndpoints(
 			"model", modelName,
 			"error", err)
 
-		// use original endpoints as fallback
-		return healthyEndpoints, ports.NewRoutingDecision(
-			s.Name(),
-			ports.RoutingActionFallback,
-			constants.RoutingReasonDiscoveryErrorFallback,
-		), nil
+		// respect the configured fallback: only "all" may route to endpoints that do not list the model
+		switch s.options.FallbackBehavior {
+		case constants.FallbackBehaviorNone, constants.FallbackBehaviorCompatibleOnly:
+			return nil, ports.NewRoutingDecision(
+					s.Name(),
+					ports.RoutingActionRejected,
+					constants.RoutingReasonDiscoveryError,
+				), domain.NewModelRoutingError(
+					modelName,
+					s.Name(),
+					"rejected",
+					len(healthyEndpoints),
+					modelEndpoints,
+					fmt.Errorf("failed to get endpoints after discovery: %w", err),
+				)
+		default:
+			// use original endpoints as fallback
+			return healthyEndpoints, ports.NewRoutingDecision(
+				s.Name(),
+				ports.RoutingActionFallback,
+				constants.RoutingReasonDiscoveryErrorFallback,
+			), nil
+		}
 	}
 
 	// note: we can't get updated model endpoints here without registry access
